@@ -143,6 +143,7 @@ impl Scenario for Bytes {
         cov.probe_declare("typematic_repeat");
         if self.prop != BProp::C07 {
             cov.probe_declare("ground_truth_checked");
+            cov.probe_declare("keyboard_clear_inside_a_key_sequence");
         } else {
             cov.probe_declare("recovery_checked");
             cov.probe_declare("obs_shadow_replaced_after_error");
@@ -217,6 +218,17 @@ impl Scenario for Bytes {
             mask = 0xFF;
         }
         inject_bfaults(rng, &cfg, &mut ops, rate_pct, mask, stratum);
+        // the watchdog / the application may call Keyboard::clear() at any moment, also between
+        // the bytes of one key sequence; that is no fault and must not change what bytes mean
+        if self.prop != BProp::C07 {
+            for o in ops.iter_mut() {
+                if let Op::Key { pfx, code, brk, fault: BFault::None } = o.op {
+                    if rng.chance(1, 15) {
+                        o.op = Op::Key { pfx, code, brk, fault: BFault::ClearAt(rng.range(0, 2) as u8) };
+                    }
+                }
+            }
+        }
         if rate_class != 0 {
             // the focus cell: [ordinary key press + release] then the focus op,
             // placed in the part of the run where faults are allowed
@@ -305,7 +317,16 @@ impl Scenario for Bytes {
             }
             let mut results: Vec<Res> = Vec::with_capacity(bytes.len());
             let mut fresh = DynSet::new(cfg.set); // per-sequence fresh decoder (C07 recovery)
-            for b in bytes.iter().copied() {
+            let clear_at: Option<usize> = match top.op {
+                Op::Key { fault: BFault::ClearAt(n), .. } => Some((n as usize).min(bytes.len().saturating_sub(1))),
+                _ => None,
+            };
+            for (bi, b) in bytes.iter().copied().enumerate() {
+                if clear_at == Some(bi) && self.prop != BProp::C07 {
+                    kb.clear();
+                    env.cov.api_calls += 1;
+                    env.cov.probe("keyboard_clear_inside_a_key_sequence");
+                }
                 let ctx = if cfg.set == 2 { m2.ctx as usize } else { m1.ctx as usize };
                 let r = Res::of(&real.advance_state(b));
                 env.cov.api_calls += 1;
